@@ -63,7 +63,7 @@ YT_ROUTES = {".", "..", "watch", "embed", "v", "video", "shorts", "channel", "us
 
 
 import re as _re
-_SAFE = _re.compile(r"^(?!\.{1,2}$)[A-Za-z0-9._~@-]*$")   # URL-safe text that is not a dot segment either ('.' / '..' would resolve away)
+_SAFE = _re.compile(r"\A(?!\.{1,2}\Z)[A-Za-z0-9._~@-]*\Z")   # URL-safe text that is not a dot segment either ('.' / '..' would resolve away)
 
 
 def _eq(a, b):
@@ -333,7 +333,7 @@ SPEC = {
         hosts=["https://docs.google.com", "docs.google.com", "https://drive.google.com", "http://docs.google.com.evil.org", "https://www.google.com",
                "https://amp.example.com", "https://x.cdn.ampproject.org"],
         full=["document", "presentation", "spreadsheets", "file", "d", "e", "pub", "edit", "1AbC_id", "u", "0", "url", "amp", "a.amp.html", ""],
-        reduced=["document", "spreadsheets", "d", "e", "pub", "1AbC_id", "edit"],
+        reduced=["document", "spreadsheets", "d", "e", "pub", "1AbC_id", "edit", ""],
         queries=["", "url=http%3A%2F%2Fx.org", "amp_js_v=1", "usp=sharing", "output=csv", "url", "q&url=http%3A%2F%2Fx.org", "id"],
         fragments=["", "gid=0"],
         options=[{}],
